@@ -118,14 +118,47 @@ fn mk_opts(path: &Path, o: (u8, usize, usize, bool)) -> Options {
     opts
 }
 
+/// names, sizes and modification times of everything under `p`
+fn listing(p: &Path, out: &mut Vec<(PathBuf, u64, Option<std::time::SystemTime>)>) {
+    if let Ok(rd) = std::fs::read_dir(p) {
+        for e in rd.flatten() {
+            let path = e.path();
+            if path.is_dir() {
+                listing(&path, out);
+            } else if let Ok(m) = e.metadata() {
+                out.push((path, m.len(), m.modified().ok()));
+            }
+        }
+    }
+    out.sort();
+}
+
+/// A crash image must be a state of the directory that existed at one instant.  Background tasks (asynchronous
+/// commit-log clean-up, start-up compaction) may run while we copy, so the copy is repeated until the
+/// directory listing (names, sizes, mtimes) is the same before and after it.
 fn copy_dir(src: &Path, dst: &Path) {
+    for _ in 0..50 {
+        let mut before = vec![];
+        listing(src, &mut before);
+        let _ = std::fs::remove_dir_all(dst);
+        copy_dir_once(src, dst);
+        let mut after = vec![];
+        listing(src, &mut after);
+        if before == after {
+            return;
+        }
+        std::thread::sleep(std::time::Duration::from_millis(2));
+    }
+}
+
+fn copy_dir_once(src: &Path, dst: &Path) {
     std::fs::create_dir_all(dst).unwrap();
     for e in std::fs::read_dir(src).unwrap() {
         let e = e.unwrap();
         let p = e.path();
         let d = dst.join(e.file_name());
         if p.is_dir() {
-            copy_dir(&p, &d);
+            copy_dir_once(&p, &d);
         } else {
             // a file may vanish between listing and copying (async WAL clean-up): that is a legal image
             let _ = std::fs::copy(&p, &d);
@@ -218,6 +251,9 @@ pub fn exec(a: &Args) -> i32 {
     // H_noStraddle: set once a memtable rotation happened between a batch's WAL append and the end of
     // its apply in this case (known finding `batch-straddles-rotation`); later images are not judged
     let mut straddled = false;
+    // set when a `crashtear` found no record to tear (the commit log had been flushed already): the model assumed
+    // the last transaction lost, so the rest of the case is not comparable
+    let mut untorn = false;
     for line in text.lines() {
         let w: Vec<&str> = line.split_whitespace().collect();
         let res = std::panic::catch_unwind(std::panic::AssertUnwindSafe(|| -> String {
@@ -234,6 +270,7 @@ pub fn exec(a: &Args) -> i32 {
                 o = (w[2].parse().unwrap(), w[3].parse().unwrap(), w[4].parse().unwrap(), w[5] == "1");
                 tree = Some(TreeBuilder::with_options(mk_opts(dir.path(), o)).build().expect("build"));
                 straddled = false;
+                untorn = false;
                 return "-".into();
             }
             let t = match tree.as_ref() {
@@ -266,7 +303,7 @@ pub fn exec(a: &Args) -> i32 {
                     copy_dir(dir.path(), &imgdir.path().join("img"));
                     Ok(())
                 }
-                "scanall" => return scan(t).unwrap_or_else(|e| format!("err:{e}")),
+                "scanall" => return format!("{}{}", scan(t).unwrap_or_else(|e| format!("err:{e}")), if untorn { " H=nothing-to-tear" } else { "" }),
                 "crashtear" => {
                     let cut: u64 = w.get(1).and_then(|s| s.parse().ok()).unwrap_or(1);
                     let newdir = tempfile::tempdir().expect("tempdir");
@@ -294,6 +331,9 @@ pub fn exec(a: &Args) -> i32 {
                     return match TreeBuilder::with_options(mk_opts(dir.path(), o)).build() {
                         Ok(nt) => {
                             tree = Some(nt);
+                            if !torn {
+                                untorn = true;
+                            }
                             if torn { "ok".into() } else { "ok H=nothing-to-tear".into() }
                         }
                         Err(e) => format!("err:open:{}", err_name(&e)),
@@ -329,7 +369,7 @@ pub fn exec(a: &Args) -> i32 {
                 straddled = true;
                 s_mark = " S=straddle";
             }
-            let h = if straddled { " H=straddle" } else { "" };
+            let h = if untorn { " H=nothing-to-tear" } else if straddled { " H=straddle" } else { "" };
             if at.is_none() && base != "crash" {
                 return format!("ok{s_mark}");
             }
